@@ -79,6 +79,18 @@ def gen(tier, rng, harness=None):
         for a in plain + rng.sample(texts, 3):
             lines.append("!mod.pollute %s %s" % (hx(a), hx(pol[1])))
             lines.append("!mod.pollute %s %s" % (hx(pol[1]), hx(a)))
+    # constants an implementation is tempted to SHARE between parses (NaNs of either sign, zeros, infinities, booleans, null, undef, empty aggregates), every kind
+    # against its twin of the other sign / another type, in both orders
+    shared = []
+    for ty, pos, neg in (("half", "0xH7E00", "0xHFE00"), ("float", "0x7FF8000000000000", "0xFFF8000000000000"), ("double", "0x7FF8000000000000", "0xFFF8000000000000"),
+                         ("x86_fp80", "0xK7FFFC000000000000000", "0xKFFFFC000000000000000"), ("fp128", "0xL00000000000000007FFF800000000000", "0xL0000000000000000FFFF800000000000"),
+                         ("double", "0.0", "-0.0"), ("float", "0x7FF0000000000000", "0xFFF0000000000000"), ("half", "0xH0000", "0xH8000")):
+        shared.append(("@p = global %s %s\n" % (ty, pos), "@n = global %s %s\n" % (ty, neg)))
+    shared += [("@a = global i1 true\n", "@b = global i1 false\n"), ("@a = global i8* null\n", "@b = global i32* null\n"), ("@a = global {} zeroinitializer\n", "@b = global {} undef\n"),
+               ("@a = global i32 undef\n", "@b = global i64 undef\n"), ("@a = global i32 poison\n", "@b = global i8 poison\n"), ("!0 = !{null}\n", "!0 = !{!{}}\n")]
+    for a, b in shared:
+        lines.append("!mod.pollute %s %s" % (hx(a), hx(b)))
+        lines.append("!mod.pollute %s %s" % (hx(b), hx(a)))
     for _ in range(100 if tier == "quick" else 5000):
         lines.append("!mod.pollute %s %s" % (hx(rng.choice(texts)), hx(rng.choice(texts))))
     for m, text, sk in modprops.gen_modules(rng, n):
